@@ -572,6 +572,20 @@ pub fn apply_op(cx: &mut Ctx, s: &Schedule, op: &Value) -> Schedule {
                         for n in &dropped {
                             check_formation(cx, "add_path", &after, *n, &without(&before.formations[n], v));
                         }
+                    } else {
+                        // a path that contains nodes the vehicle already serves: the order inside the
+                        // formations is not documented for this case (8.4), but the vehicle gains the
+                        // path, so it runs in the formation of each of its nodes - once
+                        for n in &p_acts {
+                            let k = after.formations.get(n).map(|f| f.iter().filter(|x| **x == v).count()).unwrap_or(0);
+                            if k != 1 {
+                                cx.v(
+                                    "C13",
+                                    "C13.add_path.receiver_formation_membership",
+                                    format!("add_path {:?} to {}: the vehicle is listed {} times in the formation of {} which is now on its tour", cx.names_of(&nodes_arg), v, k, cx.name(*n)),
+                                );
+                            }
+                        }
                     }
                     let mut tn: BTreeSet<NodeIdx> = p_acts.iter().copied().collect();
                     tn.extend(non_depots(&cx.ad, &exp_dropped));
